@@ -43,6 +43,10 @@ def run(ctx):
             if b.exit not in (0, 130) and not st.opts.get('faults') and not getattr(st, 'interrupted', False):
                 ctx.violation('recovery-fails', h.text(), '%s: the build after a crash/interrupt does not start normally: exit %s %s' % (h.sid, b.exit, (b.err or '')[:100]))
             prev = (st, b)
+    import os, vlib, realbin
+    sb, nreal = realbin.signals(os.path.join(vlib.build_impl('plain'), 'ninja'))
+    for name, w in sb: ctx.violation(name, 'real binary: tools/realbin.py signals\n', w)
+    nev += nreal
     ctx.cov.update(evaluations=nev, distinct_nontrivial=len(nontriv), exhaustive=True,
                    rule='%d base histories (graph, first build, a change) x EVERY crash point of the following build (%d scenarios incl. torn-write variants of each log flush, %d reached a crash point) '
                         'each followed by a recovery build and a repeat; %d histories with an interrupt at a random wait with a random subset of running commands having modified their outputs; '
